@@ -19,7 +19,7 @@ CONSTANTS
   MaxChecks = 1
   MaxCtl = 1
   CtlSources <- MCSrcBoth
-  MaxRebootAsks = 2
+  MaxRebootAsks = 1
   MaxCrashes = 0
   RestartRuns <- MCRestartNone
   FailSets <- MCFailNone
